@@ -360,6 +360,14 @@ pub open spec fn width_as_written(st: synast::ScalarType, r: Type) -> bool {
                 ==> written_width(r) == Some(lit_width(st.sp_designator())->Some_0 as u32))
     }
 }
+/// C09: a typed (subroutine) parameter is bound with the type written for it (never const); an array reference type is not modelled yet
+pub open spec fn ptype_ok(pt: Option<synast::ParamType>, t: Type) -> bool {
+    match pt {
+        Some(synast::ParamType::ScalarType(st)) => t == type_of(st.sp_kind(), written_width(t), false) && width_as_written(st, t),
+        Some(synast::ParamType::ArrayRefType(_)) => t == Type::ToDo,
+        None => true,
+    }
+}
 /// KF C09-nonconst-designator-silent
 pub open spec fn co_nonconst_designator() -> bool { true }
 
